@@ -1082,7 +1082,7 @@ def reuse_case(ctx, g, rng):
         first = "ok"
     except Exception as e_:  # noqa: BLE001
         first = f"{type(e_).__name__}: {str(e_)[:120]}"
-    variant = str(rng.choice(["misnamed", "shifted", "same"]))
+    variant = ["misnamed", "shifted", "same"][g["index"] % 3]     # by case index: coverage must not be luck
     spec2 = copy_spec(spec)
     if variant == "misnamed":
         spec2["offsets"] = [dict(spec["offsets"][0], name=f"dv0_{q + 1}")]
